@@ -147,7 +147,7 @@ func encodeArgs(args []AV) []byte {
 }
 
 type Msg struct {
-	Kind string `json:"kind"` // cmd | raw | ilv
+	Kind string `json:"kind"` // cmd | data | raw | ilv
 	// cmd
 	Cmd  string  `json:"cmd,omitempty"`
 	Tid  float64 `json:"tid,omitempty"`
@@ -210,6 +210,10 @@ type Case struct {
 }
 
 func (m Msg) payload() []byte {
+	if m.Kind == "data" {
+		// data message: a string (Cmd) followed by the arguments, no transaction id
+		return append(rtmpref.EncodeAmf0(rtmpref.Str(m.Cmd)), encodeArgs(m.Args)...)
+	}
 	if m.Kind == "cmd" {
 		var p []byte
 		if m.Amf3 {
@@ -226,6 +230,9 @@ func (m Msg) payload() []byte {
 }
 
 func (m Msg) typeID() uint8 {
+	if m.Kind == "data" {
+		return rtmpref.TypeDataAmf0
+	}
 	if m.Kind == "cmd" {
 		if m.Amf3 {
 			return rtmpref.TypeCmdAmf3
@@ -245,8 +252,12 @@ func init() {
 	// process bounded, and do not spread one shard over every core (the driver runs the shards in parallel).
 	debug.SetGCPercent(800)
 	debug.SetMemoryLimit(2 << 30)
-	if runtime.GOMAXPROCS(0) > 4 {
-		runtime.GOMAXPROCS(4)
+	limit := 4
+	if os.Getenv("VERIF_FUZZING") != "" {
+		limit = 8 // the fuzzing engine starts GOMAXPROCS workers
+	}
+	if runtime.GOMAXPROCS(0) > limit {
+		runtime.GOMAXPROCS(limit)
 	}
 }
 
@@ -306,12 +317,9 @@ func avGen(depth int) *rapid.Generator[AV] {
 			}
 			return a
 		default:
-			// 250000 levels (1 MiB) are what exhausts a 32 MiB stack when the nesting limit is missing; they are also
-			// the most expensive bodies once the chunk layer has lost synchronisation, so they are drawn less often
-			nest := rapid.SampledFrom([]int{2, 65, 70, 1000, 20000, 65, 2, 250000, 2, 64, 66, 1000, 5000, 65, 70, 3}).Draw(t, "nest")
-			if pbt.Thorough() && rapid.IntRange(0, 30).Draw(t, "huge") == 0 {
-				nest = 1000000
-			}
+			// depths around lal's nesting limit (64); the depths that would exhaust the stack without that limit are
+			// generated by deepNesting, in the two places where lal parses nested values
+			nest := rapid.SampledFrom([]int{2, 65, 70, 1000, 64, 66, 3, 5000}).Draw(t, "nest")
 			return AV{K: "bomb", S: rapid.SampledFrom([]string{"o", "e", "s"}).Draw(t, "bombKind"), Nest: nest}
 		}
 	})
@@ -409,7 +417,7 @@ func hostileMsg(t *rapid.T, stream string) Msg {
 		// the message is cut a few bytes short of its last value (negative = relative to the real length)
 		m.DeclLen = -rapid.IntRange(1, 5).Draw(t, "cutBy")
 	}
-	switch rapid.IntRange(0, 14).Draw(t, "msgClass") {
+	switch rapid.IntRange(0, 15).Draw(t, "msgClass") {
 	case 0, 1, 2: // command with generated args
 		m.Kind = "cmd"
 		m.Cmd = rapid.SampledFrom([]string{"connect", "createStream", "publish", "play", "releaseStream", "FCPublish", "deleteStream", "getStreamLength", "pause", "", "_result", "onStatus", "closeStream"}).Draw(t, "cmd")
@@ -461,6 +469,15 @@ func hostileMsg(t *rapid.T, stream string) Msg {
 		m.Kind = "raw"
 		m.Type = rapid.SampledFrom([]uint8{20, 17, 15, 16, 19}).Draw(t, "cmdRawType")
 		m.RawHex = rapid.SampledFrom([]string{"", "00", "02", "0200", "0200077075626c697368", "0200077075626c69736800", "0200077075626c697368003ff0000000000000", "0200077075626c697368003ff000000000000005", "02000470 6c6179003ff00000000000000502", "020007636f6e6e656374003ff0000000000000", "020007636f6e6e656374003ff000000000000003", "020007636f6e6e656374003ff00000000000000300036170700200046c69766500000905", "0002000763"}).Draw(t, "cmdRaw")
+	case 12: // deep nesting where lal parses nested AMF values, or an empty / one-byte body of a type lal handles
+		if rapid.Bool().Draw(t, "deepOrTiny") {
+			return deepNesting(t)
+		}
+		m.Kind = "raw"
+		m.Type = rapid.SampledFrom([]uint8{17, 15, 20, 18, 1, 2, 3, 4, 5, 6, 8, 9, 22, 17}).Draw(t, "tinyType")
+		m.RawHex = rapid.SampledFrom([]string{"", "", "00", "02", "ff"}).Draw(t, "tinyBody")
+		m.DeclLen = 0
+		m.Fmt = 0
 	case 13: // a well-formed command at the wrong moment
 		if disabled("seq") {
 			return validMedia(t)
@@ -479,6 +496,24 @@ func hostileMsg(t *rapid.T, stream string) Msg {
 	return m
 }
 
+// deepNesting is a well-framed message whose nested AMF value reaches one of lal's two recursive parsers: the
+// object of a connect command (any stage) or the object / array of a metadata message (while publishing).  20000 and
+// more levels exhaust a 32 MiB stack if a nesting limit is missing.
+func deepNesting(t *rapid.T) Msg {
+	nest := rapid.SampledFrom([]int{64, 65, 66, 1000, 20000, 250000, 20000}).Draw(t, "deepNest")
+	if pbt.Thorough() && rapid.IntRange(0, 9).Draw(t, "huge") == 0 {
+		nest = 1000000
+	}
+	if rapid.Bool().Draw(t, "deepConnect") {
+		return Msg{Kind: "cmd", Cmd: "connect", Tid: 1, Csid: 3, Args: []AV{{K: "bomb", S: "o", Nest: nest}}, Amf3: rapid.IntRange(0, 5).Draw(t, "deepAmf3") == 0}
+	}
+	bomb := AV{K: "bomb", S: rapid.SampledFrom([]string{"o", "e", "o", "s"}).Draw(t, "deepKind"), Nest: nest}
+	if rapid.Bool().Draw(t, "sdf") {
+		return Msg{Kind: "data", Cmd: "@setDataFrame", Csid: 5, Msid: 1, Args: []AV{{K: "str", S: "onMetaData"}, bomb}}
+	}
+	return Msg{Kind: "data", Cmd: "onMetaData", Csid: 5, Msid: 1, Args: []AV{bomb}}
+}
+
 // ilvPart is one message of an interleaved group: mostly bodies of several chunks so that there is a "middle".
 func ilvPart(t *rapid.T, stream string, csid int) Msg {
 	var m Msg
@@ -487,6 +522,10 @@ func ilvPart(t *rapid.T, stream string, csid int) Msg {
 		m = Msg{Kind: "raw", Type: rapid.SampledFrom([]uint8{9, 8, 18, 9}).Draw(t, "partType"), RawSeed: rapid.Uint32().Draw(t, "partSeed"),
 			RawLen: rapid.SampledFrom([]int{129, 256, 257, 300, 1000, 4097, 9000}).Draw(t, "partLen"), Msid: 1, Ts: tsGen.Draw(t, "partTs")}
 	case 3: // a command whose body spans chunks
+		if disabled("seq") {
+			m = validMedia(t)
+			break
+		}
 		m = seqCmd(t, stream)
 		m.Args = append(m.Args, AV{K: "str", S: "pad", Rep: rapid.SampledFrom([]int{50, 100, 400}).Draw(t, "padRep")})
 	case 4: // lying length on a part
@@ -967,6 +1006,17 @@ func classify(c Case) (bool, []string) {
 	afterTeardownCmd := false
 	one = func(m Msg, inIlv bool) {
 		switch m.Kind {
+		case "data":
+			labels = append(labels, "type:18", "data:"+m.Cmd)
+			for _, a := range m.Args {
+				if a.K == "bomb" {
+					labels = append(labels, "amf-bomb")
+					if a.Nest >= 20000 {
+						labels = append(labels, "amf-bomb>=20000-levels/metadata")
+					}
+					mutated = true
+				}
+			}
 		case "cmd":
 			labels = append(labels, "cmd:"+m.Cmd)
 			if m.Amf3 {
@@ -975,6 +1025,10 @@ func classify(c Case) (bool, []string) {
 			for _, a := range m.Args {
 				if a.K == "bomb" {
 					labels = append(labels, "amf-bomb")
+					mutated = true
+					if a.Nest >= 20000 && m.Cmd == "connect" {
+						labels = append(labels, "amf-bomb>=20000-levels/connect")
+					}
 				}
 				if a.K == "bad" {
 					labels = append(labels, "amf-malformed")
